@@ -39,6 +39,8 @@ def main(argv=None):
     except core.HarnessError as e:
         sys.stderr.write("HARNESS ERROR (not a property verdict): %s\n" % e)
         return 3
+    finally:
+        core.rmwork(ctx.workdir)
     return ctx.finish(coverage, assumptions)
 
 
